@@ -45,6 +45,13 @@ TRUSTED = [
     "re-initialised with permuted ranks / fewer members.  Every sampler built in a history is compared (stream, len, "
     "seeds, draws) with the sampler built with the explicit (rank, world size) in the harness process, and replayed "
     "through w_built / cb_built / dist_built in Coq",
+    "ENVIRONMENT of the process: the model has no environment to read (pgroup = is_available + the joined group); tied "
+    "to the code by running half of the generated histories and 5 directed ones per kind in fresh processes whose "
+    "environment holds a launcher's variables (torchrun RANK / WORLD_SIZE / LOCAL_RANK / LOCAL_WORLD_SIZE / GROUP_RANK / "
+    "MASTER_ADDR / MASTER_PORT, SLURM_PROCID / SLURM_NTASKS / SLURM_LOCALID, OMPI_COMM_WORLD_*, PMI_*; consistent, "
+    "inconsistent (rank >= world size, per process different) or not numbers), each with a default-argument build and "
+    "kappadata rank queries WITHOUT a group (must be rank 0 of 1: without_group_rank_0_of_1) and inside a group (the "
+    "group's values); variables outside that list are not generated",
     "structural check of kappadata/utils/distributed.py by RUN-TIME INSPECTION (no translator): no function of the module "
     "is a functools caching wrapper (cache_info / cache_clear / cache along __wrapped__), a closure or a non-function "
     "callable, no module-level dict / list / set / bytearray; a cache kept in a rebindable module global is invisible "
@@ -74,9 +81,13 @@ RULE = ("dist 55% / cb 15% / weighted 15% / rand 15%; n in 0..25 (thorough ..60)
         "workers 0, thorough also 2); 12% of the non-rand cases also carry a PROCESS-GROUP HISTORY of 3..10 steps (init as "
         "rank r of W / destroy / is_available off-on / kappadata rank queries / throwaway samplers / the case's sampler "
         "built with default, explicit or mixed rank and world_size under epochs 0..3), 70% simulated in one process (W in "
-        "1..7), 30% in 2..3 real gloo processes; plus 11 directed schedules per kind (build after init, each kind of "
-        "query / preview / build before init, destroy + join another group, explicit arguments inside a group) and one "
-        "structural inspection of kappadata/utils/distributed.py")
+        "1..7), 30% in 2..3 real gloo processes; half of the histories run under a launcher's ENVIRONMENT (RANK / "
+        "WORLD_SIZE / LOCAL_RANK / SLURM_PROCID / ... set per process to launcher-like, inconsistent or non-numeric values) "
+        "and then contain a default-argument build without a group; plus 16 directed schedules per kind (build after init, "
+        "each kind of query / preview / build before init, destroy + join another group, explicit arguments inside a group, "
+        "5 under torchrun / SLURM / MPI environments with and without a group) and one structural inspection of "
+        "kappadata/utils/distributed.py; class-balanced cases: 25% hand out their labels as ndarray / tensor of "
+        "int64..uint8, 10% sample by sample without getall_class")
 
 
 def gen_ops(rng, epoch):
@@ -159,8 +170,14 @@ def gen_case0(rng, big=False):
             for _ in range(rng.randint(1, 3)):
                 classes[rng.randrange(n)] = -1
         dim = C if C > 2 or rng.random() < 0.7 else 1
-        return {"kind": "cb", "classes": classes, "dim": dim, "spc": rng.choice([None, None, 0, 1, 2, 3, 5, 8, 13]),
-                "shuffle": rng.random() < 0.85, "seed": seed, "epoch": epoch, "W": W}
+        c = {"kind": "cb", "classes": classes, "dim": dim, "spc": rng.choice([None, None, 0, 1, 2, 3, 5, 8, 13]),
+             "shuffle": rng.random() < 0.85, "seed": seed, "epoch": epoch, "W": W}
+        q = rng.random()      # how the dataset hands out its labels (composition under every representation: C13)
+        if q < 0.25:
+            c["rep"] = rng.choice([r for r in S.REPS[1:] if S.rep_fits(classes, r)])
+        elif q < 0.35:
+            c["getall"] = False
+        return c
     if r < 0.85:
         n = rng.randint(1, nmax)
         weights = [rng.choice([0.5, 1.0, 2.0, 3.5, 10.0]) for _ in range(n)]
@@ -197,6 +214,8 @@ def search_cases(rng, tier):
 def shrink(c):
     if c["kind"] == "structure":
         return
+    if "rep" in c or "getall" in c:
+        yield {k: v for k, v in c.items() if k not in ("rep", "getall")}
     if c.get("pg"):
         yield {k: v for k, v in c.items() if k != "pg"}
         for cand in PG.shrink_pg(c["kind"], c["pg"]):
@@ -542,6 +561,8 @@ def features(case, obs):
             eps[i] == eps[j] and any(eps[m] != eps[i] for m in range(i, j)) for i in range(len(eps)) for j in range(i, len(eps)))
     if "ranks" in obs:
         yield "result=" + obs["ranks"][0]["result"].split(":")[0]
+    if case["kind"] == "cb":
+        yield "cb:labels=%s" % ("getitem_class only" if case.get("getall") is False else case.get("rep", "list"))
     if case["kind"] == "dist":
         yield "dist:n<W=%s" % (case["n"] < case["W"])
         yield "dist:rep=%d" % case["rep"]
